@@ -176,6 +176,11 @@ def run(ctx):
     from checks.c10 import load
 
     prog, S, M = load(ctx.repo)
+
+    from sa.xmlchemy_model import ALL_PARTS, mechanism_gate  # noqa: F401
+
+
+    mechanism_gate(ctx, M, ("attr",))
     ctx.level = "other"
     ctx.trusted = ["CPython ast", "XSD simple types / attribute tables under /repo/spec as oracle",
                    "recognised idioms of simpletypes.py (anything else is exit 2)"]
@@ -221,8 +226,11 @@ def run(ctx):
                                          "schema": [(p.tag, S.tname(p.tq), p.attr.use) for p in found][:3]})
         opt_req = [p for p in found if d.kind == "OptionalAttribute" and p.attr.use == "required"]
         for p in opt_req[:1]:
-            ctx.info("R11.1", "%s: OptionalAttribute on schema-required %s/@%s (assigning None/default removes a required "
-                              "attribute)" % (key, p.tag, d.attr))
+            ctx.violation("R11.1", key + ":optional",
+                          "OptionalAttribute on %s/@%s, which is required in %s: assigning None%s removes the attribute and leaves "
+                          "an element the schema rejects (and that reads back through the default instead of the stored value)" % (
+                              p.tag, d.attr, S.tname(p.tq), (" or the default %r" % (d.default,)) if d.has_default and d.default is not None else ""),
+                          file=cls.file, line=d.line)
 
     # -- R11.3 (mechanism) -----------------------------------------------------------------------
     ctx.rule("R11.3", "to_xml validates before converting; every rejection on a validate path is TypeError or ValueError; "
@@ -293,12 +301,32 @@ def run(ctx):
             if enums is not None:
                 lex = [(t, "enumeration token") for t in enums]
             bad = []
+            factors = {}   # "percent" / "int": linear factor between the number in the lexeme and the value read
             for text, desc in lex:
                 r = ST.reads(cls, Lexeme(text))
                 if r is None:
                     raise AnalysisError("%s.convert_from_xml: no result for %r" % (cls.name, text))
                 if r[0] == "raises":
                     bad.append((text, desc, r[1]))
+                elif isinstance(r[1], tuple) and r[1][0] == "num" and len(r[1]) > 2:
+                    if text.endswith("%"):
+                        factors.setdefault("percent", set()).add(r[1][2])
+                    elif text.lstrip("+-").isdigit():
+                        factors.setdefault("int", set()).add(r[1][2])
+            # the two spellings of one quantity: "P%" and the integer form in 1000ths of a percent (ST_Percentage and the types
+            # derived from it, ECMA-376 Part 1 20.1.10.40/.75) must read as the same value: factor("P%") = 1000 x factor(int)
+            if len(factors.get("percent", ())) == 1 and len(factors.get("int", ())) == 1:
+                kp, ki = next(iter(factors["percent"])), next(iter(factors["int"]))
+                # DrawingML percentages: the integer form counts 1000ths of a percent; chart percentages (c:ST_Overlap, c:ST_GapAmount,
+                # c:ST_BubbleScale ...: unsignedShort / byte ranges in whole percents) use the same unit in both spellings
+                unit = 1 if S.tname(sq).startswith("c:") else 1000
+                if kp == unit * ki:
+                    ctx.ok("R11.4", key + ":percent-scale", sample={"percent_literal_factor": str(kp), "integer_form_factor": str(ki)})
+                else:
+                    ctx.violation("R11.4", key + ":percent-scale", "the percent-literal form reads as %s x P but the integer form (%s) as %s x N: "
+                                  "\"50%%\" and \"%d\" denote the same quantity and read as different values (%s vs %s)"
+                                  % (kp, "1000ths of a percent" if unit == 1000 else "whole percents", ki, 50 * unit, 50 * kp, 50 * unit * ki),
+                                  file=cls.file, line=cls.line)
             if bad:
                 ctx.violation("R11.4", key + ":unreadable{%s}" % ",".join(b[0] for b in bad),
                               "schema-valid lexical form(s) cannot be read: %s" % "; ".join(
